@@ -225,6 +225,12 @@ func Files() []File {
 			{Name: "lines", Num: 3, Kind: "message", Card: "rep", Type: "@dep.Money"}, {Name: "by_name", Num: 4, Kind: "map", MapKey: "string", MapVal: "message", MapType: "@dep.Money"},
 			{Name: "cur", Num: 5, Kind: "enum", Card: "imp", Type: "@dep.Currency"}}},
 	}, nil, nil)
+	// ... referenced ONLY as a map value (no singular / repeated field pulls in the import)
+	atom("a3localmapval", "proto3", []string{"local-import", "import-only-in-map-value"}, nil, []M{
+		{Name: "Ledger", Fields: []F{{Name: "id", Num: 1, Kind: "string", Card: "imp"}, {Name: "by_name", Num: 4, Kind: "map", MapKey: "string", MapVal: "message", MapType: "@dep.Money"}}},
+	}, nil, nil)
+	// a file that declares enums only (no message to generate code for)
+	atom("a3enumonly", "proto3", []string{"enum-only-file"}, nil, nil, []E{{Name: "Level", Values: []EV{{"LEVEL_NONE", 0}, {"LEVEL_HIGH", 1}}}}, nil)
 	// upper-case letters in the .proto file name / directory: only the message part of a per-message file name is lower-cased
 	atom("a3UpperCase", "proto3", []string{"upper-case-file-name"}, nil, []M{
 		{Name: "SensorEvent", Fields: []F{{Name: "id", Num: 1, Kind: "int32", Card: "imp"}, {Name: "batch", Num: 2, Kind: "message", Card: "imp", Type: "Batch"}}},
